@@ -982,6 +982,10 @@ package mcp
 // the resolution of that very schema - looked up in the cache by the schema's own pointer, or resolved from it - and
 // never with a schema inferred from the Go type; only a tool without a declared schema takes the by-type entry.
 //@ func setSchema [C16]
+//@   track Interface as zeroValue
+// The zero value handed back (what a nil pointer output is replaced by before it is marshalled and validated) is the
+// zero value of the pointed-to type on every path - whether the schema was inferred, declared, or found in the cache.
+//@   ensures @the-zero-value-does-not-depend-on-where-the-schema-came-from calls(zeroValue) <= 1 && (calls(zeroValue) == 1 ==> result.0 == callResult(zeroValue, 1, 0)) && (calls(zeroValue) == 0 ==> result.0 == nil)
 //@   track getByType as byType
 //@   track getBySchema as byPointer
 //@   track Resolve as resolve
